@@ -126,8 +126,9 @@ Definition idle (sigma : sched) (s : st) : option st :=
 (** ** The executor *)
 Inductive outcome (A : Type) :=
 | Done (a : A)
-| Stuck            (* idle with nothing fulfilled: the real executor never returns *)
-| OutOfFuel.       (* the model's bound on idle rounds was too small (excluded by the theorems) *)
+| Stuck (s : st)       (* idle with nothing fulfilled: the real executor never returns; [s] = the
+                          state reached *)
+| OutOfFuel (s : st).  (* the model's bound on idle rounds was too small; [s] = the state reached *)
 Arguments Done {A}.
 Arguments Stuck {A}.
 Arguments OutOfFuel {A}.
@@ -266,10 +267,10 @@ Fixpoint wait_loop (sigma : sched) (fuel : nat) (f : fut) (s : st) : outcome (re
   | Ready r => Done (r, s)
   | Pending _ =>
       match fuel with
-      | O => OutOfFuel
+      | O => OutOfFuel s
       | S n =>
           match idle sigma s with
-          | None => Stuck
+          | None => Stuck s
           | Some s1 => let '(f1, s2) := poll f s1 in wait_loop sigma n f1 s2
           end
       end
@@ -300,8 +301,8 @@ Fixpoint serial_loop (sigma : sched) (fuel : nat) (l : selset) (slots : list slo
       | Done (RErr e, s3) => Done (Some e, slots, s3)
       | Done (ROk v, s3) =>
           serial_loop sigma fuel tl (upd_nth i (fun _ => Some (key, v)) slots) (S i) p s3
-      | Stuck => Stuck
-      | OutOfFuel => OutOfFuel
+      | Stuck s' => Stuck s'
+      | OutOfFuel s' => OutOfFuel s'
       end
   end.
 
@@ -310,8 +311,8 @@ Definition exec_sel_serial (sigma : sched) (fuel : nat) (fields : selset) (p : r
   match serial_loop sigma fuel fields (repeat None (length fields)) 0 p s with   (* NewOrderedMapWithLength *)
   | Done (Some e, slots, s1) => Done (Err e, slots, s1)
   | Done (None, slots, s1) => Done (MapOkValue (After []) GObj, slots, s1)
-  | Stuck => Stuck
-  | OutOfFuel => OutOfFuel
+  | Stuck s' => Stuck s'
+  | OutOfFuel s' => OutOfFuel s'
   end.
 
 (** ** Whole requests *)
@@ -343,20 +344,27 @@ Definition run (sigma : sched) (md : mode) (fuel : nat) (root : selset) : outcom
       let '(f, s1) := exec_sel root [] st0 in
       match wait sigma fuel f s1 with
       | Done rs => Done (finish [] rs)
-      | Stuck => Stuck
-      | OutOfFuel => OutOfFuel
+      | Stuck s' => Stuck s'
+      | OutOfFuel s' => OutOfFuel s'
       end
   | Mutation =>
       match exec_sel_serial sigma fuel root [] st0 with
       | Done (f, slots, s1) =>
           match wait sigma fuel f s1 with
           | Done rs => Done (finish slots rs)
-          | Stuck => Stuck
-          | OutOfFuel => OutOfFuel
+          | Stuck s' => Stuck s'
+          | OutOfFuel s' => OutOfFuel s'
           end
-      | Stuck => Stuck
-      | OutOfFuel => OutOfFuel
+      | Stuck s' => Stuck s'
+      | OutOfFuel s' => OutOfFuel s'
       end
+  end.
+
+(** the global resolver log of a run, whether or not it returned *)
+Definition log_of (o : outcome resp) : list event :=
+  match o with
+  | Done r => r_events r
+  | Stuck s | OutOfFuel s => s_evs s
   end.
 
 (** the scheduler the harness implements: every promise has a rank (by its static tag); an idle
